@@ -516,6 +516,19 @@ class Body:
                 break
         return None, None
 
+    def error_exit_blocks(self):
+        """blocks that put an error into the return place: `_0 = Err(..)` or `_0 = from_residual(..)` (the `?` exit)"""
+        out = {i for i, j, pl, rv, line, exp in self.stmts() if pl[0] == 0 and rv[0] == "agg" and rv[1].endswith("Result::Err")}
+        out |= {c.bb for c in self.calls() if c.dest[0] == 0 and c.path.endswith("from_residual")}
+        return out
+
+    def success_passes(self, start, via):
+        """every path from `start` to a return that is not an error exit passes a block of `via` — whatever the
+        spelling of the success return (an `Ok(..)` literal, a variable holding a Result, a tail call)"""
+        via = set(via) | self.error_exit_blocks()
+        rets = [rb for rb in self.ret_blocks() if rb in self.reachable(start)]
+        return all(self.must_pass(start, rb, via) for rb in rets)
+
     def local_ty(self, l):
         return self.locals[l][0]
 
